@@ -561,6 +561,29 @@ def check_estimate(fx, R, cname, f, tag, v9=None):
     product_names = {n for n in defs if contains(expand(n), MU) and contains(expand(n), MV)}
     # ---- V3 ----------------------------------------------------------------
     covs = [(i, e) for i, e in enumerate(ev) if e[0] == 'expr' and m(('+=', '$C', ('*', ('-', '$P1', '$M1'), ('.transpose', ('-', '$P2', '$M2')))), e[1], {})]
+    # weighted sums: a mean accumulated as sum w_n p_n is a centroid only when divided by sum w_n (for exact data y = R x + t the centred targets are R (centred sources) + t (1 - W/N))
+    wacc = []
+    for e_ in ev:
+        if e_[0] == 'expr' and isinstance(e_[1], tuple) and len(e_[1]) == 3 and e_[1][0] == '+=' and e_[1][1] in ('sourceMean', 'targetMean') and isinstance(e_[1][2], tuple) and e_[1][2][0] == '*' and len(e_[1][2]) == 3:
+            ops_ = [o_ for o_ in e_[1][2][1:] if not (contains(o_, 'sourcePoints') or contains(o_, 'targetPoints'))]
+            if len(ops_) == 1 and not isinstance(ops_[0], (int, float)):
+                wacc.append((e_[1][1], ops_[0], expand(ops_[0])))
+    if wacc:
+        divs_ = {e_[1][1]: e_[1][2] for e_ in ev if e_[0] == 'expr' and isinstance(e_[1], tuple) and len(e_[1]) == 3 and e_[1][0] == '/=' and e_[1][1] in ('sourceMean', 'targetMean')}
+        wsums = {e_[1][1] for e_ in ev if e_[0] == 'expr' and isinstance(e_[1], tuple) and len(e_[1]) == 3 and e_[1][0] == '+=' and isinstance(e_[1][1], str)
+                 and any(e_[1][2] == w_[1] or expand(e_[1][2]) == w_[2] for w_ in wacc)}
+        for (mn_, wname, wdef) in wacc:
+            d_ = divs_.get(mn_)
+            if d_ is None:
+                continue
+            dx = expand(d_)
+            by_count = contains(dx, '.size') or (isinstance(dx, str) and 'umberOf' in dx)
+            by_wsum = any(contains(d_, ws_) for ws_ in wsums)
+            if by_count and not by_wsum:
+                R.violated('V2', inst + ':weighted-means', '%s accumulates the points multiplied by `%s` (%s) but is divided by `%s`, the number of correspondences, not the sum of those factors: it is the centroid only '
+                           'when every factor is 1.  For exact data target = R source + t the centred targets are then R (centred sources) + t (1 - W/N): rotation and translation come out wrong for every list '
+                           'whose weights do not sum to its length (the result is still a proper rotation)%s' % (mn_, wname, str(wdef)[:80], pp_s(d_) if isinstance(d_, tuple) else d_, ptag), fx.rel(f['loc']), 'E-ALG')
+                return None
     if len(covs) != 1:
         R.undecided('V3', inst, 'cross-covariance accumulation not recognised')
         return None
@@ -714,7 +737,17 @@ def reflection_handled(ev, ri, factor_names, product_names, rhs, rhs_x, D, decls
         if not body:
             return False, 'determinant test at this point has an empty body: no correction is applied', e[2]['loc']
         if not sign_ok:
-            return None, 'determinant test `%s` is not of the form det < 0' % (g,), e[2]['loc']
+            # another spelling of the test: evaluated (E-STEP) on determinants of orthogonal factors as the two scalar types compute them, +-1 up to a few units of rounding
+            bv = det_test_by_value(g)
+            if bv is None:
+                return None, 'determinant test `%s` is not of the form det < 0 and is not evaluable on witness determinants' % (g,), e[2]['loc']
+            if bv[0] is False:
+                return False, ('the reflection test is `%s`: for factors whose determinants are %s and %s as computed in %s (orthogonal matrices: +-1 up to a few units of rounding, %s) it evaluates to %s, so the '
+                               'correction is %s - %s' % (pp_s(g), bv[1][0], bv[1][1], bv[1][2], '1e-7 in float, 1e-16 in double', bv[1][3],
+                                                          'applied to a proper rotation' if bv[1][3] else 'not applied to a reflection',
+                                                          'every result of the %s instantiations has determinant -1 and a translation to match; an absolute tolerance is only right for one scalar type' % bv[1][2]
+                                                          if bv[1][3] else 'the result keeps determinant -1')), e[2]['loc']
+            sign_ok = True
         pcol, pwhich = negates_last_column(body, product_names, last)
         if pcol is not None:
             return False, ('the reflection correction negates a column of the product V*U^T (%s): V*U^T*S is a proper rotation but not V*S*U^T, the least-squares optimum - for coplanar 3-D sets '
@@ -742,6 +775,51 @@ def reflection_handled(ev, ri, factor_names, product_names, rhs, rhs_x, D, decls
         return None, 'rotation expression uses a determinant in a form not enumerated: %s' % (rhs,), None
     return False, ('the rotation block is assigned %s with no determinant correction on any path: for coplanar 3-D (or collinear-degenerate 2-D) point sets the SVD factors '
                    'can combine to a reflection (det = -1)' % pp_s(rhs)), None
+
+
+def det_test_by_value(g):
+    """Evaluates a reflection test on the determinants of the two SVD factors: (True, None) when it is true exactly for a negative product on every witness of both scalar types;
+    (False, (du, dv, scalar type, value of the test)) for the first disagreement; None when not evaluable."""
+    from .. import mini
+    names = []
+
+    def det_hook(t, env):
+        k_ = str(t[1])
+        if k_ not in env:
+            raise mini.Unsupported('determinant of %s' % (k_,))
+        return env[k_]
+
+    def collect(t):
+        if isinstance(t, tuple):
+            if t and t[0] == '.determinant' and len(t) == 2:
+                if str(t[1]) not in names:
+                    names.append(str(t[1]))
+            for x in t:
+                collect(x)
+    collect(g)
+    if not names or len(names) > 2:
+        return None
+    for (sname, eps) in (('double', 2.0 ** -52), ('float', 2.0 ** -23)):
+        for s1 in (1.0, -1.0):
+            for s2 in (1.0, -1.0):
+                for k1 in (-3, 0, 2):
+                    for k2 in (-1, 0, 3):
+                        vals = [s1 * (1.0 + k1 * eps), s2 * (1.0 + k2 * eps)]
+                        env = {n_: v_ for n_, v_ in zip(names, vals)}
+                        S_ = mini.Step(deep_unwrap)
+                        S_.hooks['.determinant'] = det_hook
+                        try:
+                            got = bool(S_.ev(g, env))
+                        except (mini.Unsupported, TypeError):
+                            return None
+                        prod = 1.0
+                        for n_ in names:
+                            prod *= env[n_]
+                        if len(names) == 1:
+                            prod = env[names[0]]
+                        if got != (prod < 0):
+                            return (False, ('%.9g' % vals[0], '%.9g' % (vals[1] if len(names) > 1 else vals[0]), sname, got))
+    return (True, None)
 
 
 def one_pass_invariant(fx, f):
